@@ -54,9 +54,9 @@ add("C03", "c_updates",
 
 
 add("C24", "c_rpc",
-    [T("TestC24", 60000, 400000, env=BUBBLE)],
+    [T("TestC24", 60000, 400000, env=BUBBLE), T("TestC23Concurrent", 3000, 30000, pkg="c_mtproto", env={"GOMAXPROCS": "1"})],
     pre=["TestC24Regression"],
-    rule="owned schedules over the real rpc.Engine in a synctest bubble: 1..3 concurrent Do calls; drawn actions start/ack/valid result/undecodable result/rpc error/duplicate/foreign result/cancel/ForceClose/retry-interval tick/release of a goroutine parked at a scheduling point (rpc: after handler lookup in NotifyResult/NotifyError, before Output.Decode, before Do's final select, before drop; harness: inside Decode, and every log record the engine writes outside its mutex - the harness owns the logger); the same message id issued again after an rpc error (as Invoke does on bad_server_salt); acks/results/errors only for requests whose first transmission happened; which points park is drawn per case. non-trivial = a result is delivered while its call races with cancel/close, or a duplicate/foreign/late result occurs; distinct by action list",
+    rule="connection level (TestC23Concurrent, shared with C23): 2..4 invocations on a real mtproto.Conn whose results (plain or gzipped) are handled concurrently, decoders released in a drawn order - each invocation must get the bytes addressed to its id; engine level: owned schedules over the real rpc.Engine in a synctest bubble: 1..3 concurrent Do calls; drawn actions start/ack/valid result/undecodable result/rpc error/duplicate/foreign result/cancel/ForceClose/retry-interval tick/release of a goroutine parked at a scheduling point (rpc: after handler lookup in NotifyResult/NotifyError, before Output.Decode, before Do's final select, before drop; harness: inside Decode, and every log record the engine writes outside its mutex - the harness owns the logger); the same message id issued again after an rpc error (as Invoke does on bad_server_salt); acks/results/errors only for requests whose first transmission happened; which points park is drawn per case. non-trivial = a result is delivered while its call races with cancel/close, or a duplicate/foreign/late result occurs; distinct by action list",
     technique="stateful PBT with an owned schedule (rapid-drawn choices over build-tagged scheduling points, testing/synctest) + history oracle over one totally ordered event log",
     text="Every Do returns exactly once with an outcome that a delivered event explains; a valid result delivered while the call was pending and undisturbed makes it return nil; its Output sees at most one decode, only bytes naming its own id, and no decode start or end after Do returned. Schedules are sampled at hook-point granularity.",
     note="Preemption is modelled only at the hook points; the harness send/drop/recorder are the environment. Trusts testing/synctest for quiescence.",
